@@ -210,8 +210,14 @@ func (r *Reader) traverseNode(n *html.Node, ctx *parseContext) {
 				ctx.listItems = nil
 			}
 
-			text := strings.TrimSpace(getTextContent(n))
-			if text != "" && !isBlockContainer(n) {
+			// Decide first whether this is a container: collecting the text of
+			// every container on the way down makes deeply nested markup cost
+			// quadratic time.
+			text := ""
+			if !isBlockContainer(n) {
+				text = strings.TrimSpace(getTextContent(n))
+			}
+			if text != "" {
 				r.elements = append(r.elements, parsedElement{
 					Type: ElementParagraph,
 					Text: text,
@@ -410,8 +416,14 @@ func (r *Reader) traverseNodeFiltered(n *html.Node, ctx *parseContext, elements 
 				ctx.listItems = nil
 			}
 
-			text := strings.TrimSpace(getTextContent(n))
-			if text != "" && !isBlockContainer(n) {
+			// Decide first whether this is a container: collecting the text of
+			// every container on the way down makes deeply nested markup cost
+			// quadratic time.
+			text := ""
+			if !isBlockContainer(n) {
+				text = strings.TrimSpace(getTextContent(n))
+			}
+			if text != "" {
 				*elements = append(*elements, parsedElement{
 					Type: ElementParagraph,
 					Text: text,
